@@ -1,6 +1,8 @@
 package streams
 
 import (
+	apierrors "k8s.io/apimachinery/pkg/api/errors"
+	"k8s.io/apimachinery/pkg/runtime/schema"
 	"context"
 	"fmt"
 	"math/rand"
@@ -49,6 +51,15 @@ func (wl *writeLog) applied(obj client.Object, err error) {
 	}
 }
 
+// rejected: the error a rejected write returns.  "conflict" is a 409 (another writer changed the object
+// between the controller's read and its write); a plain "reject" cycles through the API error kinds.
+func rejected(f, verb string, obj client.Object) error {
+	if f == "conflict" {
+		return apierrors.NewConflict(schema.GroupResource{Resource: kindOf(obj)}, obj.GetName(), fmt.Errorf("injected: the object has been modified"))
+	}
+	return injectedErr(verb, obj.GetGenerateName()+obj.GetName())
+}
+
 func loggingClient(objs []client.Object, wl *writeLog, failAt map[int]string) client.Client {
 	base := fake.NewClientBuilder().WithScheme(theScheme).WithObjects(objs...).
 		WithStatusSubresource(&edsv1.ExtendedDaemonSet{}, &edsv1.ExtendedDaemonSetReplicaSet{}, &edsv1.ExtendedDaemonsetSetting{}).Build()
@@ -69,8 +80,8 @@ func loggingClient(objs []client.Object, wl *writeLog, failAt map[int]string) cl
 			wl.Created = append(wl.Created, obj.DeepCopyObject().(client.Object))
 			f := fault()
 			wl.mu.Unlock()
-			if f == "reject" {
-				return fmt.Errorf("injected")
+			if f == "reject" || f == "conflict" {
+				return rejected(f, "create", obj)
 			}
 			err := c.Create(ctx, obj, opts...)
 			wl.applied(obj, err)
@@ -85,8 +96,8 @@ func loggingClient(objs []client.Object, wl *writeLog, failAt map[int]string) cl
 			wl.Deleted = append(wl.Deleted, obj.DeepCopyObject().(client.Object))
 			f := fault()
 			wl.mu.Unlock()
-			if f == "reject" {
-				return fmt.Errorf("injected")
+			if f == "reject" || f == "conflict" {
+				return rejected(f, "delete", obj)
 			}
 			err := c.Delete(ctx, obj, opts...)
 			wl.applied(obj, err)
@@ -109,8 +120,8 @@ func loggingClient(objs []client.Object, wl *writeLog, failAt map[int]string) cl
 				}
 			}
 			wl.mu.Unlock()
-			if f == "reject" {
-				return fmt.Errorf("injected")
+			if f == "reject" || f == "conflict" {
+				return rejected(f, "update", obj)
 			}
 			err := c.Update(ctx, obj, opts...)
 			if f == "lost" {
@@ -124,8 +135,8 @@ func loggingClient(objs []client.Object, wl *writeLog, failAt map[int]string) cl
 			wl.Patched = append(wl.Patched, obj.DeepCopyObject().(client.Object))
 			f := fault()
 			wl.mu.Unlock()
-			if f == "reject" {
-				return fmt.Errorf("injected")
+			if f == "reject" || f == "conflict" {
+				return rejected(f, "patch", obj)
 			}
 			err := c.Patch(ctx, obj, patch, opts...)
 			if f == "lost" {
@@ -138,9 +149,14 @@ func loggingClient(objs []client.Object, wl *writeLog, failAt map[int]string) cl
 			wl.Order = append(wl.Order, "status:"+kindOf(obj)+"/"+obj.GetName())
 			wl.Status = append(wl.Status, obj.DeepCopyObject().(client.Object))
 			f := fault()
+			// failAt[-2]: fault on the (first) status write, wherever it falls in the sequence
+			if sp, ok := failAt[-2]; ok && f == "" {
+				f = sp
+				delete(failAt, -2)
+			}
 			wl.mu.Unlock()
-			if f == "reject" {
-				return fmt.Errorf("injected")
+			if f == "reject" || f == "conflict" {
+				return rejected(f, "status", obj)
 			}
 			err := c.SubResource(sub).Update(ctx, obj, opts...)
 			if f == "lost" {
@@ -174,6 +190,10 @@ type edsOutJ struct {
 	Order        []string         `json:"order"`
 	// objects written that are not (ns, name)-own: violates C12
 	Foreign []string `json:"foreign"`
+	// stale-read cases: the stored object differs after the reconcile although every write of it
+	// carried an outdated resourceVersion
+	StoredChanged       bool `json:"storedChanged"`
+	StoredCanaryChanged bool `json:"storedCanaryChanged"`
 }
 
 var tplCache = map[int]corev1.PodTemplateSpec{}
@@ -412,6 +432,10 @@ func streamEdsReconcile(r *rand.Rand, i int, tier string) *Case {
 		}
 	}
 	cl := loggingClient(objs, wl, failAt)
+	// what the API held before the previous reconcile: a stale read returns this
+	stale0 := &edsv1.ExtendedDaemonSet{}
+	_ = cl.Get(context.TODO(), types.NamespacedName{Namespace: testNS, Name: testEDS}, stale0)
+	staleRead := prerun && len(failAt) == 0 && r.Intn(2) == 0
 	if prerun {
 		mode0 := pick(r, edsv1.ExtendedDaemonSetSpecStrategyCanaryValidationModeAuto, edsv1.ExtendedDaemonSetSpecStrategyCanaryValidationModeManual)
 		pre, _ := runEdsReconcile(newEDSReconciler(cl, mode0), wl, testNS, testEDS)
@@ -437,6 +461,17 @@ func streamEdsReconcile(r *rand.Rand, i int, tier string) *Case {
 	mode := pick(r, edsv1.ExtendedDaemonSetSpecStrategyCanaryValidationModeAuto, edsv1.ExtendedDaemonSetSpecStrategyCanaryValidationModeManual)
 	sw := &switchClient{Client: cl}
 	rec := newEDSReconciler(sw, mode)
+	before := &edsv1.ExtendedDaemonSet{}
+	_ = cl.Get(context.TODO(), types.NamespacedName{Namespace: testNS, Name: testEDS}, before)
+	if staleRead && before.ResourceVersion == stale0.ResourceVersion {
+		staleRead = false // the previous reconcile wrote nothing: nothing to be stale about
+	}
+	if staleRead {
+		// the informer cache lags behind the controller's own previous write: this reconcile reads the
+		// ExtendedDaemonSet as it was before it.  Optimistic concurrency must then refuse its writes.
+		cat = append(cat, "stale-read")
+		sw.use(&staleGetClient{Client: cl, key: types.NamespacedName{Namespace: testNS, Name: testEDS}, stale: stale0, n: 1})
+	}
 	if !prerun && r.Intn(4) == 0 {
 		// the same reconciler instance has already reconciled this ExtendedDaemonSet in a world with
 		// a different node population (its writes went to that other world)
@@ -450,9 +485,21 @@ func streamEdsReconcile(r *rand.Rand, i int, tier string) *Case {
 	// the reconciler reads what the API server stored (timestamps truncated to seconds)
 	stored := &edsv1.ExtendedDaemonSet{}
 	_ = cl.Get(context.TODO(), types.NamespacedName{Namespace: testNS, Name: testEDS}, stored)
+	if staleRead {
+		stored = stale0.DeepCopy() // the model decides from what the reconcile read
+	}
 	in := map[string]interface{}{"eds": canon.CEDS(stored), "ers": cers, "pods": cpods, "nodes": cnodes, "defaultMode": string(mode)}
 	out, nowC := runEdsReconcile(rec, wl, testNS, testEDS)
 	in["now"] = nowC
+	if staleRead {
+		after := &edsv1.ExtendedDaemonSet{}
+		_ = cl.Get(context.TODO(), types.NamespacedName{Namespace: testNS, Name: testEDS}, after)
+		in["staleRead"] = true
+		in["faulted"] = true // the writes are refused: completeness clauses do not apply
+		out.StoredChanged = !canonEq(canon.CEDS(before), canon.CEDS(after))
+		b, a := canon.CEDS(before).Status.Canary, canon.CEDS(after).Status.Canary
+		out.StoredCanaryChanged = !canonEq(b, a)
+	}
 	cat = append(cat, "kind:"+out.Kind)
 	if out.Created != nil {
 		cat = append(cat, "creates-ers")
